@@ -2,7 +2,7 @@ SPECIFICATION GSpec
 CONSTANTS
   Starts <- StartA
   MaxData = 2
-  FragChoices <- F123
+  FragChoices <- F12
   MaxFaults = 1
   FaultKinds <- AllFaults
   MaxAuth = 0
